@@ -90,7 +90,10 @@ Inductive astep : astate -> astate -> Prop :=
                g_votes := g_votes s; g_cand := g_cand s;
                g_leaders := (n, a_cur s n) :: g_leaders s;
                g_llog := upd (g_llog s) (a_cur s n) (a_log s n);
-               g_lcommit := g_lcommit s; g_acks := g_acks s |}
+               (* the new leader's own commit index — what it learnt as a
+                  follower or reached as the leader of an earlier term — is a commit index "the leader of this term
+                  has reached": the real leader sends it as leader_commit before it commits anything in its term *)
+               g_lcommit := upd (g_lcommit s) (a_cur s n) (a_commit s n); g_acks := g_acks s |}
 | SLeaderAppend s n pl :
     In (n, a_cur s n) (g_leaders s) ->
     astep s {| a_cur := a_cur s; a_vote := a_vote s;
